@@ -100,7 +100,7 @@ structure Conn (V : Type) where
   next : Nat
   out : List (Key × Nat)
   futs : List (Fut V)
-  deriving Repr
+  deriving DecidableEq, Repr
 
 def Conn.init {V : Type} (proto : Option Proto) (start : Nat) : Conn V :=
   { proto := proto, next := start, out := [], futs := [] }
